@@ -8,10 +8,15 @@ package main
 //     parameter is what the caller's literal stored into it; a captured variable is its binding);
 //   - result objects whose error is a variable assigned on the branches (a phi stored into the error field at one exit);
 //   - result objects built by a constructor function (a call of it is the literal it contains, arguments for parameters);
+//   - result objects created up front whose error FIELD is assigned on the branches (c06Cell): the exit reports the reaching
+//     definition of the field — one exit per definition, with the facts of the paths on which it is the last one;
+//   - a disjunctive gate ("success only if A or B") whose facts are established by a helper or kept in a boolean local (c06Gate);
 //   - the timestamp function split into helpers: the regime begins where it calls the helper that handles the
 //     countersignature; the decision table is followed through the helpers that take part in the decision (c06Explorer);
 //   - whole-chain scans: an inline loop, a module helper that contains the loop, or slices.IndexFunc / ContainsFunc with a
-//     predicate — each yields "for every element of the chain these facts hold" on a set of edges.
+//     predicate — each yields "for every element of the chain these facts hold" on a set of edges; an index loop only if its
+//     counter takes the values 0, 1, 2, ... (c06CountsFromZero); facts composed through a closure created in the function
+//     name its captured variables, which are read as their read-only bindings (c06FreeSub).
 
 import (
 	"go/constant"
@@ -867,6 +872,54 @@ func c06FailCut(fi *FnInfo, K int) map[edgeKey]bool {
 			}
 		}
 	}
+	// the error field of an object created up front, assigned on the branches (c06Cell): a defining block whose definition
+	// is such a failure, from which no other defining block can be reached and from which every return reached hands out
+	// that object — every path through it ends at a return of the object with this very definition in the field
+	cells := map[ssa.Value]*c06Cell{}
+	for _, b := range fi.Fn.Blocks {
+		r, ok := blockTerm(b).(*ssa.Return)
+		if !ok || phiRet[r] || K >= len(r.Results) {
+			continue
+		}
+		obj := r.Results[K]
+		if _, seen := cells[obj]; seen {
+			continue
+		}
+		cell := c06CellOf(fi.W, fi, obj)
+		cells[obj] = cell
+		if cell == nil {
+			continue
+		}
+		for db, d := range cell.defs {
+			if !d.fail && (d.val == nil || !dead(d.val, db)) {
+				continue
+			}
+			final := true
+			seen := map[*ssa.BasicBlock]bool{}
+			stack := append([]*ssa.BasicBlock(nil), db.Succs...)
+			for len(stack) > 0 && final {
+				q := stack[len(stack)-1]
+				stack = stack[:len(stack)-1]
+				if seen[q] || q == db {
+					continue
+				}
+				seen[q] = true
+				if _, isDef := cell.defs[q]; isDef {
+					final = false
+				}
+				stack = append(stack, q.Succs...)
+			}
+			seen[db] = true
+			for q := range seen {
+				if rr, isRet := blockTerm(q).(*ssa.Return); isRet && (K >= len(rr.Results) || rr.Results[K] != obj) {
+					final = false
+				}
+			}
+			if final {
+				cutInto(fi, db, cut)
+			}
+		}
+	}
 	// a constructor-built result whose error argument is not a variable: the return block has no successor, so a block
 	// whose result is a failure can be removed as a whole
 	for _, b := range fi.Fn.Blocks {
@@ -901,6 +954,186 @@ func c06Witness(fi *FnInfo, mode Mode, starts []state, cut map[edgeKey]bool) []s
 	return fi.successWitness(mode, starts, cut)
 }
 
+// ---------- result objects created up front, the error field assigned on the branches --------------------------------------
+//
+// `res := &R{Type: ..}; switch .. { case A: res.Error = f() ; default: for .. { if bad { res.Error = fmt.Errorf(..); break } } }; return res`
+//
+// The error the exit reports is a variable here too — the field of the fresh object itself instead of a local that one
+// literal reports (c06PhiRet). Its value at a return is decided by the last assignment executed on the path (its reaching
+// definition), or is nil if the path assigns nothing (a fresh object is zeroed). This holds because the object is private to
+// the function until it is returned: its address is only used to address its fields, the fields are only stored to and
+// loaded from by the function itself (c06ErrCell checks exactly that), so no callee, closure or alias can write the field.
+
+// c06ErrCell: obj is a fresh object with one error field — allocated by the function itself, or obtained from a constructor
+// (c06Ctor: an object allocated there and handed out unaliased) — that is only filled in field by field, read, and returned.
+// Returns, per block that assigns the error field, the last such assignment of the block, and what the field holds when
+// the object is created: nil (a zeroed allocation, a constructor that leaves the field alone), the constructor's error
+// argument, or a failure (initFail).
+func c06ErrCell(w *World, obj ssa.Value) (stores map[*ssa.BasicBlock]*ssa.Store, init ssa.Value, initFail, ok bool) {
+	ef := errFieldOf(obj.Type())
+	if ef < 0 {
+		return nil, nil, false, false
+	}
+	var refs *[]ssa.Instruction
+	switch x := obj.(type) {
+	case *ssa.Alloc:
+		if !x.Heap {
+			return nil, nil, false, false
+		}
+		refs = x.Referrers()
+	case *ssa.Call:
+		ct := c06CtorOf(w, staticCallee(x))
+		if ct == nil || x.Call.IsInvoke() {
+			return nil, nil, false, false
+		}
+		switch {
+		case ct.errFail:
+			initFail = true
+		case ct.errParam >= 0 && ct.errParam < len(x.Call.Args):
+			if a := x.Call.Args[ct.errParam]; !isNilConst(a) {
+				init = a
+			}
+		case ct.errParam >= 0:
+			return nil, nil, false, false
+		}
+		refs = x.Referrers()
+	default:
+		return nil, nil, false, false
+	}
+	if refs == nil {
+		return nil, nil, false, false
+	}
+	stores = map[*ssa.BasicBlock]*ssa.Store{}
+	for _, ref := range *refs {
+		switch x := ref.(type) {
+		case *ssa.DebugRef, *ssa.Return:
+		case *ssa.FieldAddr:
+			if x.X != obj || x.Referrers() == nil {
+				return nil, nil, false, false
+			}
+			for _, rr := range *x.Referrers() {
+				switch y := rr.(type) {
+				case *ssa.DebugRef:
+				case *ssa.UnOp:
+					if y.Op != token.MUL {
+						return nil, nil, false, false
+					}
+				case *ssa.Store:
+					if y.Addr != ssa.Value(x) {
+						return nil, nil, false, false // the field's address is itself stored somewhere
+					}
+					if x.Field != ef {
+						continue
+					}
+					if prev := stores[y.Block()]; prev == nil || instrIndex(prev) < instrIndex(y) {
+						stores[y.Block()] = y
+					}
+				default:
+					return nil, nil, false, false
+				}
+			}
+		default:
+			return nil, nil, false, false
+		}
+	}
+	return stores, init, initFail, true
+}
+
+// c06CellDef: one reaching definition of the error field at a return: the value it holds (val nil: the field is nil;
+// fail: it provably holds a failure), the block that defines it, and the facts every path passes on which this definition
+// is the one that reaches the return.
+type c06CellDef struct {
+	val   ssa.Value
+	fail  bool
+	at    *ssa.BasicBlock
+	facts map[string]string
+}
+
+type c06Cell struct {
+	obj  ssa.Value
+	defs map[*ssa.BasicBlock]c06CellDef // per defining block: the block that creates the object, the blocks that assign the field
+}
+
+// c06CellOf: the definitions of the error field of the fresh object obj. The block that creates the object defines the
+// initial value (unless it goes on to assign the field: the assignment comes after the creation); entering it again would
+// create another object, so it ends the reach of every earlier definition like an assignment does.
+func c06CellOf(w *World, fi *FnInfo, obj ssa.Value) *c06Cell {
+	in, isIn := obj.(ssa.Instruction)
+	if !isIn || in.Block() == nil {
+		return nil
+	}
+	stores, init, initFail, ok := c06ErrCell(w, obj)
+	if !ok || len(stores) == 0 {
+		return nil
+	}
+	cell := &c06Cell{obj: obj, defs: map[*ssa.BasicBlock]c06CellDef{}}
+	cell.defs[in.Block()] = c06CellDef{val: init, fail: initFail || (init != nil && fi.nonNil(init, in.Block())), at: in.Block()}
+	for b, st := range stores {
+		d := c06CellDef{at: b}
+		if !isNilConst(st.Val) {
+			d.val = st.Val
+			d.fail = fi.nonNil(st.Val, b)
+		}
+		cell.defs[b] = d
+	}
+	return cell
+}
+
+func (cell *c06Cell) killCut(fi *FnInfo) map[edgeKey]bool {
+	cut := map[edgeKey]bool{}
+	for b := range cell.defs {
+		cutInto(fi, b, cut)
+	}
+	return cut
+}
+
+// c06CellDefs: the reaching definitions of the error field of obj at the return r, when there are several (with one, the
+// engine's own exit is exact). A path on which the definition of block B is the last one consists of a path from the entry
+// to B and a path from B to the return that enters no defining block: it passes what every entry->B path passes and what
+// every B->return path of the graph without the edges into defining blocks passes.
+func c06CellDefs(w *World, fi *FnInfo, r *ssa.Return, obj ssa.Value) ([]c06CellDef, bool) {
+	cell := c06CellOf(w, fi, obj)
+	if cell == nil {
+		return nil, false
+	}
+	rb := r.Block()
+	kill := cell.killCut(fi)
+	var blocks []*ssa.BasicBlock
+	for b := range cell.defs {
+		blocks = append(blocks, b)
+	}
+	sort.Slice(blocks, func(i, j int) bool { return blocks[i].Index < blocks[j].Index })
+	var defs []c06CellDef
+	for _, b := range blocks {
+		facts := map[string]string{}
+		if b.Index != 0 {
+			l, ok := fi.mustPassBetween([]int{0}, map[int]bool{b.Index: true})
+			if !ok {
+				continue // the definition is unreachable
+			}
+			facts = l
+		}
+		if b != rb {
+			post, ok := fi.mustPassBetweenCut([]int{b.Index}, map[int]bool{rb.Index: true}, kill)
+			if !ok {
+				continue // every path from it to this return passes another definition
+			}
+			for l, s := range post {
+				if _, has := facts[l]; !has {
+					facts[l] = s
+				}
+			}
+		}
+		d := cell.defs[b]
+		d.facts = facts
+		defs = append(defs, d)
+	}
+	if len(defs) < 2 {
+		return nil, false
+	}
+	return defs, true
+}
+
 // c06ObjExits: the success-capable exits of fn under mObj, with an exit of the error-variable shape split into one exit
 // per entering edge of the phi's block: facts = what every path from the entry to that edge passes; an edge that carries
 // the error of a call is a tail exit of that call, a nil edge a success exit, a provably non-nil edge no exit.
@@ -932,6 +1165,30 @@ func c06ObjExits(w *World, fn *ssa.Function, K int) ([]*ExitSum, int) {
 	done := map[*ssa.Return]bool{}
 	for _, ex := range s.Exits {
 		phi := phiOf[ex.Ret]
+		// the object was created up front and its error field is assigned on the branches: one exit per reaching definition
+		// of the field (c06CellDefs) — an assignment of nil or no assignment is a success exit, an assignment of the error
+		// of a call a tail exit of that call, an assignment of a provably non-nil value no exit
+		if obj := modeOperand(ex.Ret, Mode{Kind: mObj, K: K}); obj != nil && phi == nil {
+			if defs, ok := c06CellDefs(w, fi, ex.Ret, obj); ok {
+				if done[ex.Ret] {
+					continue
+				}
+				done[ex.Ret] = true
+				for i, d := range defs {
+					if d.fail {
+						continue
+					}
+					nx := &ExitSum{Ret: ex.Ret, Pred: -1 - i, Class: clMaybe, Checked: d.facts, InheritParam: -1, InheritField: -1}
+					if d.val == nil {
+						nx.Class = clSuccess
+					} else {
+						tailOf(nx, d.val)
+					}
+					out = append(out, nx)
+				}
+				continue
+			}
+		}
 		if phi == nil {
 			re, ok := c06RetErrOf(w, fi, ex.Ret, K)
 			if !ok || !re.built {
@@ -988,6 +1245,271 @@ func c06ObjExits(w *World, fn *ssa.Function, K int) ([]*ExitSum, int) {
 		}
 	}
 	return out, s.States
+}
+
+// ---------- a disjunctive gate, followed through helpers and boolean locals ----------------------------------------------
+//
+// The obligation "success only if A or B" is decided by removing every edge that carries A or B and asking whether a
+// success-capable exit can still be reached (no single edge is passed by every success path, so must-pass facts do not
+// express it). c06Gate finds the edges that carry the disjunction in three spellings:
+//
+//   - an edge whose own label is A or B (pass(label) != "");
+//   - an edge "the helper answered want" / "the helper's error is nil", when the helper — a module function with a body,
+//     judged with the caller's arguments in place of its parameters — cannot give that answer except through edges that
+//     carry A or B: the answer then implies the disjunction exactly as an inline edge does; an exit that merely forwards such
+//     a helper's error is set aside in the same way (it is error-free only if the helper's is);
+//   - an edge of a branch on a boolean local (a phi of the branching block, possibly negated): entered from a predecessor
+//     whose value for the local is a constant that contradicts the edge, the edge is not taken; entered through an edge that
+//     already carries the disjunction (or from a block that can only be reached through such edges), the path has passed it
+//     — the facts are about values that do not change (the expiry of the envelope, one reading of the clock); entered with
+//     a computed value v, the edge says v (or !v), whose own label is looked at. If every predecessor is of one of these
+//     three kinds, every path that takes the edge has passed A or B.
+type c06Gate struct {
+	w     *World
+	pass  func(label string) string // "" or the kind of passing fact the lifted canonical label states
+	kinds map[string]bool
+	evals int
+	stack []*ssa.Function
+}
+
+func (g *c06Gate) onStack(fn *ssa.Function) bool {
+	for _, f := range g.stack {
+		if f == fn {
+			return true
+		}
+	}
+	return false
+}
+
+// c06TimeTests: fn or a module function it (transitively) calls compares instants.
+func c06TimeTests(w *World, fn *ssa.Function) bool {
+	for _, f := range w.moduleCallees(fn) {
+		if len(findCalls(f, "(time.Time).IsZero", "(time.Time).Before", "(time.Time).After", "(time.Time).Compare")) > 0 {
+			return true
+		}
+	}
+	return false
+}
+
+// cut: the edges of fn that carry the disjunction, and the calls whose verdict, when forwarded, does. For a predicate
+// (mode mBool) also the edges into a return that answers a computed value v: the answer is mode.Want only if v is (or is
+// not), and if that is a passing fact the exit is behind the disjunction like an exit behind a passing edge.
+func (g *c06Gate) cut(fn *ssa.Function, mode Mode, lift func(string) string) (map[edgeKey]bool, map[*ssa.Call]bool) {
+	w := g.w
+	fi := w.Info(fn)
+	isPass := func(l string) bool {
+		if k := g.pass(lift(c06Canon(l))); k != "" {
+			g.kinds[k] = true
+			return true
+		}
+		return false
+	}
+	cut := fi.edgesMatching(func(l string, _ *ssa.If, _ bool) bool { return isPass(l) })
+	tails := map[*ssa.Call]bool{}
+	// helpers
+	if len(g.stack) < 4 {
+		for _, ci := range allCalls(fn) {
+			call, ok := ci.(*ssa.Call)
+			if !ok || call.Call.IsInvoke() {
+				continue
+			}
+			h := staticCallee(call)
+			if h == nil || h == fn || h.Blocks == nil || !w.IsProductFn(h) || len(call.Call.Args) != len(h.Params) || g.onStack(h) || !c06TimeTests(w, h) {
+				continue
+			}
+			rs := h.Signature.Results()
+			if rs.Len() == 0 {
+				continue
+			}
+			sub := &c06Sub{}
+			for k, p := range h.Params {
+				sub.add("param:"+p.Name(), lift(desc(call.Call.Args[k])))
+			}
+			if mc, isMC := call.Call.Value.(*ssa.MakeClosure); isMC {
+				for k, b := range mc.Bindings {
+					if k < len(h.FreeVars) {
+						sub.add("free:"+h.FreeVars[k].Name(), lift(c06BindingDesc(b)))
+					}
+				}
+			}
+			asub := c06AllocSub(h)
+			hLift := func(l string) string { return sub.apply(asub.apply(l)) }
+			if isErrorType(rs.At(rs.Len() - 1).Type()) {
+				if g.witness(h, Mode{Kind: mErr}, hLift, nil) == nil {
+					tails[call] = true
+					for _, b := range fn.Blocks {
+						if iff, ok := blockTerm(b).(*ssa.If); ok && len(b.Succs) == 2 && b.Succs[0] != b.Succs[1] {
+							if j := c06ErrNilEdge(iff, call); j >= 0 {
+								cut[edgeKey{b.Index, j}] = true
+							}
+						}
+					}
+				}
+			} else if bt, isB := rs.At(0).Type().Underlying().(*types.Basic); isB && rs.Len() == 1 && bt.Kind() == types.Bool {
+				for _, want := range []bool{false, true} {
+					if g.witness(h, Mode{Kind: mBool, Want: want}, hLift, nil) != nil {
+						continue
+					}
+					for _, b := range fn.Blocks {
+						if iff, ok := blockTerm(b).(*ssa.If); ok && len(b.Succs) == 2 && b.Succs[0] != b.Succs[1] {
+							if j := c06BoolEdge(iff, call, want); j >= 0 {
+								cut[edgeKey{b.Index, j}] = true
+							}
+						}
+					}
+				}
+			}
+		}
+	}
+	// boolean locals: to a fixpoint (one derived edge may cover a block that feeds the next local)
+	for changed := true; changed; {
+		changed = false
+		covered := c06CoveredBlocks(fn, cut)
+		for _, b := range fn.Blocks {
+			iff, ok := blockTerm(b).(*ssa.If)
+			if !ok || len(b.Succs) != 2 || b.Succs[0] == b.Succs[1] {
+				continue
+			}
+			truth := true
+			phi, isPhi := stripNot(iff.Cond, &truth).(*ssa.Phi)
+			if !isPhi || phi.Block() != b || len(phi.Edges) != len(b.Preds) {
+				continue
+			}
+			for j := 0; j < 2; j++ {
+				if cut[edgeKey{b.Index, j}] {
+					continue
+				}
+				want := truth == (j == 0) // the value of the local on edge j
+				all := true
+				for i, e := range phi.Edges {
+					p := b.Preds[i]
+					if k, isK := boolConst(e); isK && k != want {
+						continue
+					}
+					if covered[p] || c06EdgeCut(p, b, cut) {
+						continue
+					}
+					if _, isK := boolConst(e); !isK && isPass(condLabel(e, want)) {
+						continue
+					}
+					all = false
+					break
+				}
+				if all {
+					cut[edgeKey{b.Index, j}] = true
+					changed = true
+				}
+			}
+		}
+	}
+	if mode.Kind == mBool {
+		for _, b := range fn.Blocks {
+			r, ok := blockTerm(b).(*ssa.Return)
+			if !ok || len(r.Results) != 1 {
+				continue
+			}
+			v := r.Results[0]
+			if phi, isPhi := v.(*ssa.Phi); isPhi && phi.Block() == b && len(phi.Edges) == len(b.Preds) {
+				for i, e := range phi.Edges {
+					if _, isK := boolConst(e); isK || !isPass(condLabel(e, mode.Want)) {
+						continue
+					}
+					twice := false
+					for i2, p2 := range b.Preds {
+						if i2 != i && p2 == b.Preds[i] {
+							twice = true // both branches of the predecessor lead here, with one value each: not told apart by an edge
+						}
+					}
+					if twice {
+						continue
+					}
+					for j, sc := range b.Preds[i].Succs {
+						if sc == b {
+							cut[edgeKey{b.Preds[i].Index, j}] = true
+						}
+					}
+				}
+			} else if _, isK := boolConst(v); !isK && b.Index != 0 && isPass(condLabel(v, mode.Want)) {
+				cutInto(fi, b, cut)
+			}
+		}
+	}
+	return cut, tails
+}
+
+// c06EdgeCut: every edge from p to b is in the cut (and p branches).
+func c06EdgeCut(p, b *ssa.BasicBlock, cut map[edgeKey]bool) bool {
+	n := 0
+	for j, s := range p.Succs {
+		if s == b {
+			if !cut[edgeKey{p.Index, j}] {
+				return false
+			}
+			n++
+		}
+	}
+	return n > 0
+}
+
+// c06CoveredBlocks: the blocks that can only be entered through edges of the cut, or from blocks that can only be.
+func c06CoveredBlocks(fn *ssa.Function, cut map[edgeKey]bool) map[*ssa.BasicBlock]bool {
+	// the blocks reachable from the entry without a cut edge are exactly the ones that are not covered
+	reach := map[*ssa.BasicBlock]bool{}
+	if len(fn.Blocks) == 0 {
+		return reach
+	}
+	stack := []*ssa.BasicBlock{fn.Blocks[0]}
+	reach[fn.Blocks[0]] = true
+	for len(stack) > 0 {
+		q := stack[len(stack)-1]
+		stack = stack[:len(stack)-1]
+		for j, s := range q.Succs {
+			if !cut[edgeKey{q.Index, j}] && !reach[s] {
+				reach[s] = true
+				stack = append(stack, s)
+			}
+		}
+	}
+	out := map[*ssa.BasicBlock]bool{}
+	for _, b := range fn.Blocks {
+		if !reach[b] {
+			out[b] = true
+		}
+	}
+	return out
+}
+
+// c06BindingDesc: what a closure sees through a captured variable: the value a read-only snapshot holds, else the binding.
+func c06BindingDesc(b ssa.Value) string {
+	if al, isAl := b.(*ssa.Alloc); isAl {
+		if v := c06Snapshot(al); v != nil {
+			return desc(v)
+		}
+	}
+	return desc(b)
+}
+
+// witness: a path of fn to a success-capable exit under mode that takes no edge carrying the disjunction (nil: none).
+func (g *c06Gate) witness(fn *ssa.Function, mode Mode, lift func(string) string, base map[edgeKey]bool) []string {
+	g.stack = append(g.stack, fn)
+	defer func() { g.stack = g.stack[:len(g.stack)-1] }()
+	fi := g.w.Info(fn)
+	cut, tails := g.cut(fn, mode, lift)
+	for k := range base {
+		cut[k] = true
+	}
+	g.evals++
+	saved := fi.ignoreTail
+	fi.ignoreTail = tails
+	wit := c06Witness(fi, mode, entryState(), cut)
+	fi.ignoreTail = saved
+	if wit == nil {
+		return nil
+	}
+	if len(wit) == 0 {
+		wit = []string{g.w.FnPos(fn)}
+	}
+	return wit
 }
 
 // ---------- whole-chain scans ----------------------------------------------------------------------------------------------
@@ -1145,6 +1667,89 @@ func c06NoneEdge(iff *ssa.If, c *ssa.Call) int {
 	return -1
 }
 
+// c06CountsFromZero: the index the loop header compares with the length (cond: idx < len) takes the values 0, 1, 2, ... —
+// it is the loop's counter (a phi of the header) that starts at 0 and is incremented by exactly 1 on every way round, or
+// (range loops) that counter plus one, the counter starting at -1. A loop that starts further on, steps wider or moves the
+// counter in its body does not visit every element.
+func c06CountsFromZero(header *ssa.BasicBlock, cond *ssa.BinOp) bool {
+	isInt := func(v ssa.Value, want int64) bool {
+		k, ok := v.(*ssa.Const)
+		if !ok || k.Value == nil || k.Value.Kind() != constant.Int {
+			return false
+		}
+		n, exact := constant.Int64Val(k.Value)
+		return exact && n == want
+	}
+	plusOne := func(v ssa.Value) ssa.Value {
+		bo, ok := v.(*ssa.BinOp)
+		if !ok || bo.Op != token.ADD {
+			return nil
+		}
+		if isInt(bo.Y, 1) {
+			return bo.X
+		}
+		if isInt(bo.X, 1) {
+			return bo.Y
+		}
+		return nil
+	}
+	if cond.Op != token.LSS {
+		return false
+	}
+	var phi *ssa.Phi
+	first := int64(0)
+	if p, ok := cond.X.(*ssa.Phi); ok {
+		phi = p
+	} else if p, ok := plusOne(cond.X).(*ssa.Phi); ok {
+		phi, first = p, -1
+	}
+	if phi == nil || phi.Block() != header || len(phi.Edges) != len(header.Preds) {
+		return false
+	}
+	inLoop := loopBlocks(header)
+	nIn, nOut := 0, 0
+	for i, e := range phi.Edges {
+		if inLoop[header.Preds[i].Index] {
+			if plusOne(e) != ssa.Value(phi) {
+				return false
+			}
+			nIn++
+		} else {
+			if !isInt(e, first) {
+				return false
+			}
+			nOut++
+		}
+	}
+	return nIn > 0 && nOut > 0
+}
+
+// c06FreeSub: the facts the engine composes through a call of a closure created in fn name the closure's captured
+// variables ("free:x"); in fn's frame such a variable is its binding — the value a read-only snapshot holds (c06Snapshot:
+// assigned once, never written again, also not by the closure), otherwise the opaque local itself, which no rule matches.
+// Two closures that capture different things under one name make the name ambiguous (c06Sub.add).
+func c06FreeSub(fn *ssa.Function) *c06Sub {
+	sub := &c06Sub{}
+	for _, b := range fn.Blocks {
+		for _, in := range b.Instrs {
+			mc, ok := in.(*ssa.MakeClosure)
+			if !ok {
+				continue
+			}
+			cf, ok := mc.Fn.(*ssa.Function)
+			if !ok {
+				continue
+			}
+			for k, bnd := range mc.Bindings {
+				if k < len(cf.FreeVars) {
+					sub.add("free:"+cf.FreeVars[k].Name(), c06BindingDesc(bnd))
+				}
+			}
+		}
+	}
+	return sub
+}
+
 // scans returns the whole-chain scans of fn in fn's own frame (its read-only snapshots resolved).
 func (sc *c06Scanner) scans(fn *ssa.Function) []*c06Scan {
 	if s, ok := sc.memo[fn]; ok {
@@ -1167,7 +1772,7 @@ func (sc *c06Scanner) scans(fn *ssa.Function) []*c06Scan {
 			continue
 		}
 		bo, ok := iff.Cond.(*ssa.BinOp)
-		if !ok {
+		if !ok || !c06CountsFromZero(sl.Header, bo) {
 			continue
 		}
 		labels, ok := fi.mustPassBetween([]int{sl.Body.Index}, map[int]bool{sl.Header.Index: true})
@@ -1177,7 +1782,8 @@ func (sc *c06Scanner) scans(fn *ssa.Function) []*c06Scan {
 		chain := desc(sl.X)
 		elem := chain + "[@" + bo.X.Name() + "]"
 		s := &c06Scan{Chain: asub.apply(chain), Pass: map[edgeKey]bool{}, Tails: map[*ssa.Call]bool{}, Site: w.InstrPos(iff)}
-		s.Facts = c06FactSet(labels, func(l string) string { return asub.apply(strings.ReplaceAll(l, elem, chain+"[*]")) })
+		fsub := c06FreeSub(fn)
+		s.Facts = c06FactSet(labels, func(l string) string { return asub.apply(fsub.apply(strings.ReplaceAll(l, elem, chain+"[*]"))) })
 		for j, t := range sl.Header.Succs {
 			if t == sl.Exit && t != sl.Body {
 				s.Pass[edgeKey{sl.Header.Index, j}] = true
